@@ -454,12 +454,10 @@ func codecCountPings(stream []byte) int {
 	return n
 }
 
-func codecSess(pre, post []byte) string {
-	if live == nil && liveBroken == "" {
-		live = liveStart()
-	}
+func codecSess(profile string, pre, post []byte) string {
+	live, why := liveFor(profile)
 	if live == nil {
-		return liveBroken
+		return why
 	}
 	c, rw, err := liveLogin(live.addr)
 	if err != nil {
@@ -476,16 +474,8 @@ func codecSess(pre, post []byte) string {
 		_, _ = rw.Write(post)
 	}
 	postNames, res := codecReadReplies(c, rw, -1, 1500*time.Millisecond)
-	al := "dead"
-	if live.alive() {
-		al = "alive"
-	} else {
-		_ = live.conn.Close()
-		_ = live.stop.Close()
-		live = nil
-	}
 	return fmt.Sprintf("%s pre=%s post=%s %s %s", codecStreamTrees(append(append([]byte{}, pre...), post...)),
-		strings.Join(preNames, ","), strings.Join(postNames, ","), res, al)
+		strings.Join(preNames, ","), strings.Join(postNames, ","), res, liveCheck(profile))
 }
 
 // ---------------------------------------------------------------- generator: JSON bodies from the struct schema
@@ -935,6 +925,10 @@ func cdBadPiece(rng *rand.Rand) (piece []byte, class string) {
 	case k < 15:
 		return mkFrame(t, 1<<63|uint64(rng.Int63()), codec_randBytes(rng, rng.Intn(6))), "neg"
 	case k < 16:
+		if rng.Intn(2) == 0 { // a declared length above the bound WITH the whole body supplied
+			n := pick(rng, []int{10241, 10241, 10242, 11000, 16384, 20000})
+			return mkFrame(t, uint64(n), cdBigBody(rng, t, n)), "max"
+		}
 		return mkFrame(t, pick(rng, []uint64{10241, 65536, 1 << 32, 1<<63 - 1}), []byte("{}")), "max"
 	case k < 17: // declared length one short: the body loses its last byte, the stray byte starts the next frame
 		body := cdGoodBody(rng, t)
